@@ -1,25 +1,14 @@
 (* Reference semantics of property C06 (money), written from the property text.
 
    - [conv]: an amount of a currency whose rate is rA, expressed in a currency whose rate is rB.
-   - the arithmetic table of the statement over exact rationals ([money_*]).
    - rate tables under update requests: a request names a currency; a request whose name is
      not known is refused and changes nothing, an accepted one changes the rate of exactly
      that currency; later requests win. *)
 From Coq Require Import QArith Qcanon.
 From SC.Model Require Import Base.
 
+(* "Converting an amount from currency A to currency B multiplies it by rate(B)/rate(A)" *)
 Definition conv (rA rB a : Qc) : Qc := (a * rB / rA)%Qc.
-
-Section Arith.
-Variable rate : str -> Qc.
-(* the amount b of currency B expressed in currency A *)
-Definition expressed_in (A : str) (b : Qc) (B : str) : Qc := conv (rate B) (rate A) b.
-Definition money_add (a : Qc) (A : str) (b : Qc) (B : str) : Qc * str := ((a + expressed_in A b B)%Qc, A).
-Definition money_sub (a : Qc) (A : str) (b : Qc) (B : str) : Qc * str := ((a - expressed_in A b B)%Qc, A).
-Definition money_times (a : Qc) (A : str) (n : Qc) : Qc * str := ((a * n)%Qc, A).
-Definition money_over (a : Qc) (A : str) (n : Qc) : Qc * str := ((a / n)%Qc, A).
-Definition money_ratio (a : Qc) (A : str) (b : Qc) (B : str) : Qc := (a / expressed_in A b B)%Qc.
-End Arith.
 
 Section Tables.
 Context {R : Type}.
